@@ -54,9 +54,17 @@ def sig(fl):
     i = fl["fail_index"]
     prev = fl["segment"][i - 1] if i >= 1 else {}
     kind = None
+    view = fl["segment"][0].get("view")     # plugin-level histories: the node whose ledgers the segment observes
     if op == "panic":
         kind = "panic in=%s" % e.get("in")
-    elif op == "alloc":
+    elif view is not None and op in ("begin", "whatifRemove", "whatifAdd", "filter", "end"):
+        # PreFilter / what-if RemovePod, AddPod / Filter only read: the ledgers observed after the step differ from before
+        kind = "read-only-cycle-step-moved-the-ledgers:" + _ledger_kind(e.get("obs", {}))
+        if e.get("obs") == prev.get("obs"):
+            kind = None
+    elif view is not None and "node" in e and e["node"] != view:
+        kind = "step-on-node-%s-moved-the-ledgers-of-another-node:" % ("other" if op != "reserve" else "reserved") + _ledger_kind(e.get("obs", {}))
+    elif op in ("alloc", "reserve"):
         kind = _alloc_kind(e, prev)
         if kind is None and _ledger_kind(e.get("obs", {})).startswith("ledgers-differ"):
             # the grant itself satisfies (A) and the ledgers are consistent: which granted device ended up over-committed?
@@ -85,7 +93,14 @@ CONF = {
     "gen": [
         {"module": "Gen_Device", "cfg": {"quick": "Gen_quick.cfg", "thorough": "Gen_thorough.cfg"}, "timeout": 1500},
     ],
-    "go": [{"pkg": "pkg/scheduler/plugins/deviceshare", "test": "TestVerifC07", "timeout": {"quick": 900, "thorough": 1800}}],
+    "go": [
+        {"pkg": "pkg/scheduler/plugins/deviceshare", "test": "TestVerifC07", "timeout": {"quick": 900, "thorough": 1800}},
+        # plugin level: whole scheduling cycles through the real Plugin (PreFilter, what-if RemovePod / AddPod, Filter on two
+        # nodes, Reserve, Unreserve / PreBind + bind delivery) with informer events in between; one segment per (history, node)
+        {"pkg": "pkg/scheduler/plugins/deviceshare", "test": "TestVerifC07Plugin", "uses_script": False,
+         "timeout": {"quick": 900, "thorough": 1800},
+         "trace": {"module": "DeviceTrace", "cfg": "TraceCycle.cfg", "timeout": {"quick": 900, "thorough": 2400}, "chunk_events": 40000}},
+    ],
     "trace": {"module": "DeviceTrace", "cfg": "Trace.cfg", "timeout": {"quick": 900, "thorough": 2400}, "chunk_events": 40000},
     "signature": sig,
     "rule": "one segment per history executed on a real nodeDeviceCache (device / pod event handlers, AutopilotAllocator.Allocate, "
